@@ -26,6 +26,7 @@ import (
 	"os/exec"
 	"path/filepath"
 	"runtime"
+	"runtime/pprof"
 	"sort"
 	"strconv"
 	"strings"
@@ -34,6 +35,7 @@ import (
 
 	"github.com/tucats/ego/internal/router"
 	"github.com/tucats/ego/internal/verifrt/report"
+	vos "github.com/tucats/ego/internal/verifrt/vos"
 )
 
 // dev is one deviation from the well-formed request of a route.
@@ -64,22 +66,67 @@ type result struct {
 	Site     string   `json:"site,omitempty"`
 	Frames   []string `json:"frames,omitempty"`
 	Shutdown bool     `json:"shutdown,omitempty"`
+	Exiting  bool     `json:"exiting,omitempty"`
 	Hung     bool     `json:"hung,omitempty"`
 	Repaired []string `json:"repaired,omitempty"`
 	Micros   int64    `json:"us"`
 }
 
-const caseLimit = 120 * time.Second
+const caseLimit = 60 * time.Second
+
+var trace = os.Getenv("C40_TRACE") != ""
 
 // ---- worker --------------------------------------------------------------------------
 
+// exitCalled receives the status of every os.Exit the router package attempts.
+var exitCalled = make(chan int, 64)
+
 func workerMain() {
+	vos.Exit = func(code int) {
+		exitCalled <- code
+
+		select {} // the calling goroutine ends here, as it would in a dying process
+	}
+
 	in := os.NewFile(3, "cases")
 	out := os.NewFile(4, "results")
 	enc := json.NewEncoder(out)
 
+	// a worker never outlives its parent (the parent may be killed by the driver's watchdog)
+	parent := os.Getppid()
+
+	go func() {
+		for {
+			time.Sleep(time.Second)
+
+			if os.Getppid() != parent {
+				os.Exit(3)
+			}
+		}
+	}()
+
+	if pf := os.Getenv("C40_PROF"); pf != "" {
+		f, _ := os.Create(pf + "." + strconv.Itoa(os.Getpid()))
+		_ = pprof.StartCPUProfile(f)
+	}
+
 	w := newWorld(os.Getenv("C40_WORKER_SCRATCH"))
 	srv := newServer(w.rt)
+
+	// self-test: a handler that panics must be observed, with its site
+	{
+		probe := request{Method: "GET", Target: lit(selfTestPath)}
+		a := srv.roundTrip(probe.wire(), caseLimit)
+		site, _ := panicSite(a.Obs.Stack)
+
+		if a.Obs.Panic == "" || !strings.Contains(a.Obs.Panic, "index out of range") || !strings.Contains(site, "newWorld") {
+			_ = enc.Encode(result{Seq: -1, Fatal: fmt.Sprintf("self-test failed: a panicking handler was not observed (status %d, panic %q, site %q)", a.Status, a.Obs.Panic, site)})
+
+			os.Exit(2)
+		}
+
+		w.restore()
+	}
 
 	_ = enc.Encode(result{Seq: -1})
 
@@ -98,12 +145,14 @@ func workerMain() {
 		res := runCase(w, srv, &k)
 		_ = enc.Encode(res)
 
-		if res.Shutdown || res.Hung {
+		if res.Exiting || res.Hung {
 			// the process is going down (the handler asked for it) or a handler is stuck: a new worker takes over
+			pprof.StopCPUProfile()
 			os.Exit(0)
 		}
 	}
 
+	pprof.StopCPUProfile()
 	os.Exit(0)
 }
 
@@ -135,10 +184,30 @@ func runCase(w *world, srv *server, k *kase) result {
 		}
 
 		if router.VerifC40ShutdownRequested() {
+			// The handler asked for the process to stop: RequestShutdown holds
+			// ServerShutdownLock for good and a goroutine calls os.Exit once the
+			// request is answered. os.Exit is the stub below (internal/router is
+			// woven so that its os.Exit is a variable); when the stub has been
+			// reached the lock is released and the world restored, as if a new
+			// process had been started.
 			res.Shutdown = true
-			res.Micros = time.Since(start).Microseconds()
 
-			return res
+			select {
+			case <-exitCalled:
+				router.ServerShutdownLock.Unlock()
+			case <-time.After(30 * time.Second):
+				// not stubbed after all: this process is about to end; the parent starts another one
+				if trace {
+					fmt.Fprintf(os.Stderr, "NO-EXIT case %d: requests active %d\n", k.Seq, router.RequestsActive.Load())
+					_ = pprof.Lookup("goroutine").WriteTo(os.Stderr, 1)
+				}
+				res.Micros = time.Since(start).Microseconds()
+				res.Exiting = true
+
+				return res
+			}
+
+			break
 		}
 	}
 
@@ -193,7 +262,7 @@ func panicSite(stack string) (string, []string) {
 
 		short := strings.TrimPrefix(fn, "github.com/tucats/ego/internal/")
 
-		if strings.Contains(fn, "verifharness") || strings.HasPrefix(fn, "net/http.") {
+		if strings.HasPrefix(fn, "main.(*observer)") || strings.HasPrefix(fn, "net/http.") {
 			break
 		}
 
@@ -334,8 +403,21 @@ func (w *worker) recv() (result, error) {
 
 func (w *worker) stop() {
 	_ = w.in.Close()
-	_ = w.cmd.Process.Kill()
-	_, _ = w.cmd.Process.Wait()
+
+	done := make(chan struct{})
+
+	go func() {
+		_, _ = w.cmd.Process.Wait()
+		close(done)
+	}()
+
+	select {
+	case <-done:
+	case <-time.After(3 * time.Second):
+		_ = w.cmd.Process.Kill()
+		<-done
+	}
+
 	_ = os.RemoveAll(w.scratch)
 }
 
@@ -410,13 +492,22 @@ func runAll(root string, workers int, gen func(yield func(kase)), each func(outc
 					}
 
 					b, _ := json.Marshal(k)
+					began := time.Now()
 					_, werr := w.in.Write(append(b, '\n'))
 
 					res, rerr := w.recv()
+
+					if trace && time.Since(began) > 3*time.Second {
+						fmt.Fprintf(os.Stderr, "SLOW %.1fs case %d %s as %s: %s (hung=%v err=%v)\n", time.Since(began).Seconds(), k.Seq, k.Route, k.Ident, k.Req.show(), res.Hung, rerr)
+					}
 					if werr == nil && rerr == nil && res.Fatal == "" && res.Seq == k.Seq {
 						out = outcome{k: k, res: res}
 
-						if res.Shutdown || res.Hung {
+						if res.Exiting || res.Hung {
+							if trace {
+								fmt.Fprintf(os.Stderr, "WORKER LOG: %s\n", tail(w.logPath, 6000))
+							}
+
 							w.stop()
 							w = nil
 						}
@@ -599,7 +690,14 @@ type verdict struct {
 	shutdowns map[string]int64
 	hung      []string
 	slowest   []slow
-	samples   int
+	cands     []cand
+	done      int
+	began     time.Time
+}
+
+type cand struct {
+	seq int
+	v   any
 }
 
 type slow struct {
@@ -614,7 +712,7 @@ type routeStats struct {
 }
 
 func newVerdict(r *report.R, p *plan) *verdict {
-	return &verdict{r: r, plan: p, statuses: map[string]int64{}, perRoute: map[string]*routeStats{}, repaired: map[string]int64{}, shutdowns: map[string]int64{}}
+	return &verdict{began: time.Now(), r: r, plan: p, statuses: map[string]int64{}, perRoute: map[string]*routeStats{}, repaired: map[string]int64{}, shutdowns: map[string]int64{}}
 }
 
 func (v *verdict) add(o outcome) {
@@ -622,6 +720,11 @@ func (v *verdict) add(o outcome) {
 	defer v.mu.Unlock()
 
 	k, res := o.k, o.res
+
+	v.done++
+	if trace && v.done%5000 == 0 {
+		fmt.Fprintf(os.Stderr, "PROGRESS %d cases, %d panicking, %.0fs\n", v.done, len(v.hits), time.Since(v.began).Seconds())
+	}
 
 	rs := v.perRoute[k.Route]
 	if rs == nil {
@@ -677,9 +780,8 @@ func (v *verdict) add(o outcome) {
 		sort.Strings(labels)
 		v.r.Distinct(k.Route + "|" + k.Ident + "|" + k.Loggers + "|" + strings.Join(labels, "&"))
 
-		if v.samples < 6 && len(kinds) == 1 && (k.Seq%97 == 3) {
-			v.samples++
-			v.r.Sample(map[string]any{"route": k.Route, "identity": k.Ident, "deviations": k.Devs, "request": k.Req.show(), "status_cold_warm": res.Status})
+		if (len(kinds) == 1 && k.Seq%9973 == 3) || k.Seq <= 3 {
+			v.cands = append(v.cands, cand{k.Seq, map[string]any{"route": k.Route, "identity": k.Ident, "deviations": k.Devs, "request": k.Req.show(), "status_cold_warm": res.Status}})
 		}
 	}
 
@@ -786,6 +888,12 @@ func (v *verdict) finish() {
 			Pass: []string{"first request (cold caches)", "second, identical request (warm caches)"}[h.res.Pass], Panic: h.res.Panic, Site: h.res.Site, Frames: h.res.Frames}
 
 		v.r.Violation(cell, size, wit, fmt.Sprintf("the handler of %s panicked (%s) in %s and the panic reached the router's last-resort recovery; request: %s, as %s", h.k.Route, h.res.Panic, h.res.Site, h.k.Req.show(), h.k.Ident))
+	}
+
+	sort.Slice(v.cands, func(i, j int) bool { return v.cands[i].seq < v.cands[j].seq })
+
+	for _, c := range v.cands {
+		v.r.Sample(c.v)
 	}
 
 	v.r.Set("status_histogram", v.statuses)
